@@ -411,3 +411,11 @@ func AllMembersNonEmpty(s Skel) bool {
 	}
 	return true
 }
+
+// BitPatterns are the twelve 64-bit coordinate patterns of the binary codecs'
+// checks.
+var BitPatterns = []uint64{
+	0x0000000000000000, 0x8000000000000000, 0x3ff0000000000000, 0xbff8000000000000,
+	0x7ff8000000000001, 0x7ff0000000000001, 0xfff8000000abcdef, 0x7ff0000000000000,
+	0xfff0000000000000, 0x0000000000000001, 0x000fffffffffffff, 0x0102030405060708,
+}
